@@ -19,14 +19,16 @@ def run(ctx, res):
     deleg_rule(ctx, res)
     from . import C13, C04
     C13.nows_rule(ctx, res, "compact", "C08.nows")
-    C13.emit_rule(ctx, res, "C08.emit")
+    C13.emit_rule(ctx, res, "C08.emit", mode="compact")
     res.rules_run.append("C08.dispatch (every string goes through string_literal, numbers through the number's Display; shared with C04)")
     C04.dispatch_rule(ctx, res, "C08.dispatch")
     res.trusted += ["summary table (Formatter::write_str, <char as Display>::fmt, str::chars yield the characters of the string in order)",
                     "RFC 8785 table in jsv/tables.py", "Display for json_number::Number prints the stored text (dependency)"]
 
 
-def table_rule(ctx, res, rule, also_inverse=False):
+def table_rule(ctx, res, rule, also_inverse=False, rfc8785=True):
+    """rfc8785=True: the table equals the RFC 8785 table (C08, C09).  rfc8785=False (C04): only that the text written for a
+    character is a valid RFC 8259 string body that decodes back to it; a different but valid choice of escapes is accepted."""
     P = ctx.P
     try:
         ex, rows = tables.char_loop_table(P, "root_string_literal")
@@ -59,8 +61,9 @@ def table_rule(ctx, res, rule, also_inverse=False):
                         res.violation(rule, rule + "/render", "cannot render the writes for U+%04X: %s" % (c, e))
                         break
                     want = tables.rfc8785_escape(c)
-                    res.ob(got == want, rule, "%s/char/U+%04X" % (rule, c), "U+%04X is written as %r, RFC 8785 requires %r" % (c, got, want),
-                           sample={"char": "U+%04X" % c, "written": got} if c in (0, 8, 0x1F, 0x22, 0x5C) else None)
+                    if rfc8785:
+                        res.ob(got == want, rule, "%s/char/U+%04X" % (rule, c), "U+%04X is written as %r, RFC 8785 requires %r" % (c, got, want),
+                               sample={"char": "U+%04X" % c, "written": got} if c in (0, 8, 0x1F, 0x22, 0x5C) else None)
                     if also_inverse:
                         back = tables.rfc8259_unescape(got)
                         res.ob(back == c, "C04.esc", "C04.esc/char/U+%04X" % c, "the text %r written for U+%04X does not decode back to it under RFC 8259 section 7 (decodes to %r)" % (got, c, back))
